@@ -71,6 +71,8 @@ type Conn struct {
 	writeBuf       []byte
 	writeHeaderBuf [8]byte
 	writeHeader    header
+	// closeSent is protected by writeFrameMu.
+	closeSent bool
 
 	closeReadMu   sync.Mutex
 	closeReadCtx  context.Context
